@@ -154,3 +154,147 @@ def run(ctx):
             ctx.ob('C19.R5', f'{c.name}._args_wrapped_tuple:in-step-with-args', mod.where(fn),
                    f'{c.name} keeps len(self) == len(self.args)', elementwise, why)
     ctx.floor('C19.R5', n, 3, 'subclasses overriding _args_wrapped_tuple')
+
+    _subhint_soundness(ctx, repo)
+
+
+# TypeHint subclasses all of whose instances wrap hints of one fixed origin type: testing isinstance(branch, K)
+# for such a K establishes that the origins are compatible
+ORIGIN_FIXED = {
+    'TupleFixedTypeHint': 'tuple', 'TupleVariableTypeHint': 'tuple', 'CallableTypeHint': 'collections.abc.Callable',
+}
+# subclasses whose arguments are not child hints that could all be ignorable (validators, literal values, positional
+# structure): the inherited "all children ignorable" test must be overridden, with the value given
+ARGS_IGNORABLE = {
+    'AnnotatedTypeHint': (False, 'metadata (validators) are not hints; Annotated[object, V] is not equivalent to object'),
+    'LiteralTypeHint': (False, 'literal values are not hints'),
+    'TupleFixedTypeHint': (False, 'tuple[()] / tuple[Any, Any] constrain the length'),
+    'AnyTypeHint': (True, 'Any has no arguments'),
+    'ClassTypeHint': (True, 'an unsubscripted class has no arguments'),
+}
+
+
+def _leaves(body) -> bool:
+    return bool(body) and isinstance(body[-1], (ast.Return, ast.Raise, ast.Continue))
+
+
+def _chain(ifnode):
+    """[(test, body)] of an if / elif chain and its final else body (or None)."""
+    arms, cur = [], ifnode
+    while True:
+        arms.append((cur.test, cur.body))
+        if len(cur.orelse) == 1 and isinstance(cur.orelse[0], ast.If):
+            cur = cur.orelse[0]
+            continue
+        return arms, (cur.orelse or None)
+
+
+def _guards(node, fn):
+    """Path condition of ``node``: tests of enclosing if / elif arms (negated for the arms skipped), plus, for every
+    earlier sibling if / elif chain all of whose arms leave the function, the negation of each of its tests."""
+    out = []
+    child, p = node, getattr(node, '_parent', None)
+    while p is not None:
+        if isinstance(p, ast.If):
+            if any(child is s_ for s_ in p.body):
+                out.append(norm(p.test))
+            elif any(child is s_ for s_ in p.orelse):
+                out.append(f'not ({norm(p.test)})')
+        for fld in ('body', 'orelse', 'finalbody'):
+            blk = getattr(p, fld, None)
+            if isinstance(blk, list) and any(child is s_ for s_ in blk):
+                for s_ in blk:
+                    if s_ is child:
+                        break
+                    if isinstance(s_, ast.If):
+                        arms, els = _chain(s_)
+                        if all(_leaves(b) for _, b in arms) and els is None:
+                            out.extend(f'not ({norm(t)})' for t, _ in arms)
+        if p is fn:
+            break
+        child, p = p, getattr(p, '_parent', None)
+    return out
+
+
+def _subhint_soundness(ctx, repo):
+    ctx.rule('C19.R6', 'soundness obligation of every _is_subhint_branch override: a result that can be true is only '
+             'produced after origin compatibility was established — the value returned contains '
+             'issubclass(self._origin, branch._origin), or the return is dominated by that test, by '
+             'isinstance(branch, K) for a K whose instances all have one fixed origin (table), or it delegates to '
+             'another is_subhint / comparison of wrapped hints')
+    n = 0
+    classes = {}
+    for mn, m in sorted(repo.modules.items()):
+        if not mn.startswith('beartype.door._cls'):
+            continue
+        for c in [x for x in m.tree.body if isinstance(x, ast.ClassDef)]:
+            classes[c.name] = (m, c)
+    for cname, (m, c) in sorted(classes.items()):
+        fn = next((f for f in c.body if isinstance(f, ast.FunctionDef) and f.name == '_is_subhint_branch'), None)
+        if fn is None or cname in ('UnionTypeHint',):
+            continue
+        bp = fn.args.args[1].arg if len(fn.args.args) > 1 else 'branch'
+        origin = f'issubclass(self._origin, {bp}._origin)'
+        for r in [x for x in walk_shallow(fn) if isinstance(x, ast.Return) and x.value is not None]:
+            v = r.value
+            if isinstance(v, ast.Constant) and v.value is False:
+                continue
+            n += 1
+            guards = _guards(r, fn)
+            txt = norm(v)
+
+            def pos(g, what):
+                g = g.strip()
+                return g == what or g == f'not (not {what})' or g.startswith(what + ' and ') or g.endswith(' and ' + what)
+            ok = origin in txt or any(pos(g, origin) for g in guards)
+            why = ''
+            if not ok:
+                for g in guards:
+                    for K in ORIGIN_FIXED:
+                        if pos(g, f'isinstance({bp}, {K})'):
+                            ok = True
+                if not ok and ('.is_subhint(' in txt or 'self._metahint_wrapper' in txt or 'self._metadata ==' in txt):
+                    ok = True       # delegation to the wrapped hint's own comparison
+                if not ok and cname == 'TypeHint':
+                    ok = any('issubclass(self._origin' in g for g in guards)
+                why = f'returns `{txt[:70]}` under {guards}: no origin test and no class test that fixes the origin'
+            ctx.ob('C19.R6', f'{cname}._is_subhint_branch:return:{txt[:50]}', m.where(r),
+                   'a possibly-true result is produced only after origin compatibility was established', ok, why)
+    ctx.floor('C19.R6', n, 8, 'possibly-true returns of _is_subhint_branch overrides')
+
+    ctx.rule('C19.R7', 'the "arguments ignorable" flag (which makes a hint equivalent to its bare origin in is_subhint) is '
+             'overridden with the value of the reasoned table by every subclass whose arguments are not child hints')
+    for cname, (want, why) in sorted(ARGS_IGNORABLE.items()):
+        ctx.require(cname in classes, f'anchor vanished: beartype.door class {cname}')
+        m, c = classes[cname]
+        fn = next((f for f in c.body if isinstance(f, ast.FunctionDef) and f.name == '_is_args_ignorable'), None)
+        rets = [norm(r.value) for r in walk_shallow(fn) if isinstance(r, ast.Return)] if fn is not None else []
+        ctx.ob('C19.R7', f'{cname}._is_args_ignorable', m.where(fn or c),
+               f'{cname}._is_args_ignorable is {want} ({why})', rets == [str(want)],
+               f'returns {rets}' if fn is not None else 'not overridden: inherits "every wrapped child is ignorable", so '
+               f'e.g. every hint is a subhint of Annotated[object, <validator>]')
+
+    ctx.rule('C19.R8', 'every _is_equal override (the base decides equality as mutual is_subhint) compares children only '
+             'between wrappers of the same kind of hint: a possibly-true result is dominated by identity of the hint '
+             'signs (or an isinstance test for its own class), except the both-arguments-ignorable case, which compares '
+             'origins — hints that share an origin but not a sign (tuple[int, ...] vs tuple[int]) are not equal')
+    n = 0
+    for cname, (m, c) in sorted(classes.items()):
+        fn = next((f for f in c.body if isinstance(f, ast.FunctionDef) and f.name == '_is_equal'), None)
+        if fn is None or cname == 'TypeHint':
+            continue
+        op = fn.args.args[1].arg if len(fn.args.args) > 1 else 'other'
+        for r in [x for x in walk_shallow(fn) if isinstance(x, ast.Return) and x.value is not None]:
+            if isinstance(r.value, ast.Constant) and r.value.value is False:
+                continue
+            n += 1
+            guards = _guards(r, fn)
+            txt = norm(r.value)
+            sign = f'self._hint_sign is not {op}._hint_sign'
+            ok = any(g.startswith('not (') and sign in g for g in guards) or f'isinstance({op}, {cname})' in txt \
+                or any(f'isinstance({op}, {cname})' in g and not g.startswith('not (') for g in guards) \
+                or (any('_is_args_ignorable' in g and not g.startswith('not (') for g in guards) and '_origin' in txt)
+            ctx.ob('C19.R8', f'{cname}._is_equal:return:{txt[:50]}', m.where(r),
+                   'a possibly-true equality is decided between wrappers of the same sign / class', ok,
+                   f'returns `{txt[:70]}` under {guards}')
+    ctx.floor('C19.R8', n, 2, 'possibly-true returns of _is_equal overrides')
